@@ -290,9 +290,26 @@ structure Trust where
 /-- `IsTrustedPeer` -/
 def Trust.isTrusted (t : Trust) (p : Nat) : Bool := t.trustAll || p == t.self || t.trusted.contains p
 
-/-- a broadcast reaching the topic validator: the deltas it would make the replica fetch and
-    merge (`handleBlock` walk) are merged only when the signer is trusted -/
-def recv (t : Trust) (r : Rep) (signer : Nat) (walk : List Delta) : Rep :=
-  if t.isTrusted signer then mergeAll walk r else r
+/-- a pubsub message as the topic validator sees it: `signer` = `msg.GetFrom()`, the peer whose key
+    signed it; `walk` = the deltas the announced heads would make the replica fetch and merge -/
+structure Msg where
+  signer : Nat
+  walk : List Delta
+  deriving Repr
+
+/-- the topic validator of `setup()`: its `peer.ID` argument is the peer that FORWARDED the message
+    (gossipsub relays messages: forwarder ≠ signer in general); the code ignores it and decides on
+    `msg.GetFrom()` alone -/
+def validate (t : Trust) (_forwarder : Nat) (m : Msg) : Bool := t.isTrusted m.signer
+
+/-- a message reaching the replica from `forwarder`: merged iff the validator accepts it -/
+def recv (t : Trust) (r : Rep) (forwarder : Nat) (m : Msg) : Rep :=
+  if validate t forwarder m then mergeAll m.walk r else r
+
+/-- a message travelling along a path of relays; every hop re-validates with the previous hop as
+    forwarder. `deliver` = what the last peer of the path does with it, given the peer it got it
+    from (the signer itself when the path is empty). -/
+def deliver (t : Trust) (r : Rep) (path : List Nat) (m : Msg) : Rep :=
+  recv t r (path.getLast?.getD m.signer) m
 
 end CV.C02
